@@ -939,7 +939,7 @@ func runConcurrent(run *evid.Run, env *runEnv, shard, goroutines, rounds int, jo
 	close(stop)
 	<-loopDone
 	// every pod is gone: none of the host-port sockets of torn-down pods may still be held by this process
-	if bound, err := ownBoundPorts(); err != nil {
+	if bound, err := ownBoundPortsStable(nil); err != nil {
 		run.Count("socket_leftover_check_skipped", 1)
 	} else {
 		run.Count("socket_leftover_checks", int64(len(ledger.closed)))
